@@ -55,6 +55,28 @@ Definition seq_prop (ops : list op) (obs : obs_state) : bool :=
                                        negb (match snd kv with [] => true | _ => false end))
                             (snd (fst x))) obs.
 
+(* push types: NoPush is acceptable only when the registry's stored report (by the specification)
+   has exactly the keys of the new one, up to new endpoints that are unhealthy and not to be sent *)
+Fixpoint push_prop_from (done ops : list op) (res : list (option push_type)) : bool :=
+  match ops, res with
+  | o :: ops', r :: res' =>
+      match o, r with
+      | Update k svc ns (e :: es), Some NoPush =>
+          match spec (rev done) (svc, ns) k with
+          | None => false
+          | Some old =>
+              forallb (fun x => key_in (ep_key x) (e :: es)) old &&
+              forallb (fun x => key_in (ep_key x) old || (health_eqb (e_health x) UnHealthy && negb (e_send_unh x))) (e :: es)
+          end
+      | Update k svc ns (e :: es), Some FullPush => true
+      | Update k svc ns (e :: es), Some IncrementalPush =>
+          (* an incremental push is never the answer to the first report for a service *)
+          existsb (fun o' => match o' with Update _ svc' ns' (_ :: _) => pair_eqb (svc, ns) (svc', ns') | _ => false end) done
+      | _, _ => true
+      end && push_prop_from (o :: done) ops' res'
+  | _, _ => true
+  end.
+
 (* membership oracle: which reported endpoints must be direct members, with which weight *)
 Definition all_reported (c : cla_in) : list (skey * ep) :=
   match c_shards c with
@@ -112,7 +134,7 @@ Definition cla_prop (c : cla_in) (obs : list lgroup) : bool :=
 
 Definition prop_ok (c : case) : bool :=
   match c with
-  | Seq _ ops _ obs => seq_prop ops obs
+  | Seq _ ops res obs => seq_prop ops obs && push_prop_from [] ops res
   | Conc _ prefix ops _ _ obs => linearizable_from (run_ops init prefix) ops (obs_to_state obs)
   | Cla _ c obs => cla_prop c obs
   end.
